@@ -73,6 +73,18 @@ theorem canon_all_absorbs (l : List LItem) (h : l.any isLitAll = true) :
     canon l = (l.takeWhile (fun i => !isLitAll i)).filter isComment ++ (l.find? isLitAll).toList := by
   rw [canon_eq_spec]; unfold canonSpec; simp [h]
 
+/- FULL STATEMENT (refuted at the witness `kf_parse_dedup_case`):
+     ∀ l, CanonV (view (canon l))        -- the parsed list is a canonical ordered set (types compared case-insensitively)
+   The code compares the spellings, so it holds when the types are spelled in normal form (`Lower`). -/
+/-- the parse-time filter yields a canonical ordered set: a simple media type once, `all` alone -/
+theorem canon_is_canonical_partial (l : List LItem) (h : Lower l) : CanonV (view (canon l)) :=
+  canon_canonV l h
+
+/-- a canonical list (as the edit operations leave it) is a fixpoint of the parse-time filter: parse-time and
+edit-time canonicalisation agree -/
+theorem canon_fixes_canonical (l : List LItem) (hc : NoComments l) (hv : CanonV (view l)) : canon l = l :=
+  canon_id_of_canonV l hc hv
+
 /-! ## T17.2 — the edit operations refine the ordered-set specification
 
 `view` maps a list to its ordered set of media (a simple type by its case-insensitive name, a query with features
@@ -142,6 +154,14 @@ theorem spec_ops_keep_canonical (v : List Entry) (hc : CanonV v) :
   ⟨fun e v' h => specAppend_canon v v' e hc h, fun n v' h => specDelete_canon v v' n hc h,
    fun k e hk => specSetItem_canon v k e hc hk⟩
 
+/-- under ANY sequence of edits (appendMedium / deleteMedium / item assignment with any arguments, in log or raise
+mode) a list without list-level comments stays a canonical ordered set without list-level comments -/
+theorem edit_history_keeps_canonical (ops : List Op) (m : ML) (h : Inv m) : Inv (ops.foldl ML.apply m) :=
+  history_inv ops m h
+
+/-- the empty list (a new `MediaList()`) satisfies the invariant -/
+theorem new_list_canonical : Inv {} := ⟨by intro i hi; simp at hi, canonV_nil⟩
+
 /-- item count, indexing and iteration agree -/
 theorem count_index_iteration_agree_partial (m : ML) (hc : NoComments m.seq) :
     m.length = m.seq.length ∧
@@ -166,6 +186,46 @@ theorem query_whitespace_irrelevant (ts : List Tok) : parseQ {} (ts.filter notS)
 /-- parse ∘ serialise (token level) is the identity on every query the parser accepts -/
 theorem query_round_trip (ts : List Tok) (q : MQ) (h : parseQ {} ts = .ok q) : parseQ {} q.toks = .ok q :=
   parseQ_reparse ts q h
+
+/-- a list: every medium of an accepted list is itself a well-formed query (it parses, stand-alone, to itself) —
+one malformed query invalidates the whole list. Proved for the parser with the proposed repair (`strict`). -/
+theorem list_media_wellformed_repaired (ft : Bool) (ts : List Tok) (items : List LItem)
+    (h : parseL true ft {} ts = .ok items) : ∀ q ∈ queries items, parseQ {} q.toks = .ok q :=
+  parseL_strict_wf ft ts {} items lwf_init h
+
+/- FULL STATEMENT (refuted at the witness `kf_missing_handback`):
+     parseL false ft {} ts = .ok items → ∀ q ∈ queries items, parseQ {} q.toks = .ok q
+   For the code as it is, under the exact guard "the repaired parser accepts the text too" (no `Missing` error was
+   turned into a stop): -/
+theorem list_media_wellformed_partial (ft : Bool) (ts : List Tok) (items : List LItem)
+    (hg : parseL true ft {} ts = .ok items) :
+    parseL false ft {} ts = .ok items ∧ ∀ q ∈ queries items, parseQ {} q.toks = .ok q :=
+  ⟨parseL_strict_agree ft ts {} items hg, parseL_strict_wf ft ts {} items lwf_init hg⟩
+
+/-! ## T17.3 — the text of a list reparses to an equal list
+
+Token level (`ML.toks` = the tokens of `mediaText` without white space; the harness checks on every step that the
+implementation's `mediaText` tokenises to `ML.toks`). Proved for lists without comments; with comments the reparsed
+list is equal up to the place of the comments (a comment between a comma and a query belongs to the list, after a
+query to the query) — that general form is checked by the oracle on the implementation, not proved. -/
+
+/-- a non-empty list of well-formed comment-free queries: parse ∘ serialise = identity, from text and from a token
+list, for the code as it is and with the proposed repair -/
+theorem list_round_trip (strict ft : Bool) (q : MQ) (r : List MQ) (hg : ∀ x ∈ q :: r, GoodQ x) :
+    parseL strict ft {} (toksL ((q :: r).map LItem.query) true) = .ok ((q :: r).map LItem.query) :=
+  parseL_reparse strict ft q r hg
+
+/-- `mediaText` reparse after edits: assigning a canonical list its own text gives exactly that list, well-formed
+— parse-time and edit-time canonicalisation agree (`parse (text (ops l)) = ops l`) -/
+theorem mediaText_reparse_partial (m : ML) (raising ft : Bool) (hi : Inv m) (hg : ∀ q ∈ queries m.seq, GoodQ q)
+    (hne : m.seq ≠ []) :
+    m.setMediaText raising ft m.toks = ({ seq := m.seq, wellformed := true }, .ret ()) :=
+  setMediaText_own_toks m raising ft hi hg hne
+
+/-- the media that `appendMedium` / item assignment accept from a text without comments are such queries -/
+theorem accepted_medium_is_good (ts : List Tok) (q : MQ) (h : parseQ {} ts = .ok q)
+    (hc : ∀ t ∈ ts, t.typ ≠ .comment) : GoodQ q :=
+  parseQ_goodQ ts q h hc
 
 /-! ## Known findings: the full statements fail at these witnesses (machine-checked) -/
 
